@@ -66,3 +66,6 @@ From PortusGen Require Import FlowKey.
 Theorem C15_source_keys_flows_by_address_then_flow_id : flow_map_shape = KeyAddrThenSid.
 Proof. reflexivity. Qed.
 Print Assumptions C15_source_keys_flows_by_address_then_flow_id.
+Theorem C15_source_algorithm_list_nodes : impl_fields_AlgList = model_fields_AlgList /\ impl_fields_AlgListNil = model_fields_AlgListNil.
+Proof. split; [exact fields_AlgList_tie|exact fields_AlgListNil_tie]. Qed.
+Print Assumptions C15_source_algorithm_list_nodes.
